@@ -86,6 +86,22 @@ pub const UNICODE_ESCAPES: &[&str] = &[
     "\\u0000", "\\uffff", "\\uFFFE", "\\ud7ff", "\\ue000", "\\u0022", "\\u005c", "\\u0024", "\\u000a", "\\u2028", "\\u00E9", "\\u00e9\\u0301",
 ];
 
+/// Scalars at and just beyond the edges of their kinds (some legal, some not): calendar and clock
+/// limits, leap second, offset and zone extremes, number magnitudes and odd spellings, coordinates
+/// out of range. Accepted ones feed the re-encode checks, rejected ones the totality checks.
+pub const EDGE_SCALARS: &[&str] = &[
+    "0000-01-01", "0001-01-01", "9999-12-31", "2020-02-29", "2021-02-29", "2021-00-10", "2021-13-01", "2021-01-32", "1900-02-29", "2000-02-29", "10000-01-01",
+    "24:00:00", "23:59:60", "23:59:59.999999999", "00:00:00.000000000", "12:00:00.9999999999", "7:05:00", "12:60:00", "00:00:00.", "12:34",
+    "2021-06-07T23:59:60Z", "2021-06-07T12:00:00+14:00 Kiritimati", "2021-06-07T12:00:00-12:00 GMT+12", "2021-06-07T12:00:00+05:45 Kathmandu", "2021-06-07T12:00:00+24:00 UTC",
+    "2021-06-07T12:00:00+99:99", "2021-06-07T12:00:00Z New_York", "2021-06-07T12:00:00-04:00 Nowhere", "2021-06-07T12:00:00-04:00", "2021-06-07T12:00:00-04:00 UTC",
+    "2021-03-14T02:30:00-05:00 New_York", "2021-11-07T01:30:00-04:00 New_York", "2021-11-07T01:30:00-05:00 New_York", "1883-11-18T12:00:00-05:00 New_York", "2021-06-07T12:00:00Z Z",
+    "2021-06-07T12:00:00.123456789Z", "2021-06-07T12:00:00+00:00 UTC", "2021-06-07T12:00:00-00:00 UTC", "2021-06-07T12:00:00Z GMT", "2021-06-07T12:00:00+01:00 GMT-1", "2021-06-07T12:00:00+01:00 Etc/GMT-1",
+    "1e308", "1.7976931348623157e308", "1e309", "-1e309", "4.9e-324", "1e-400", "9007199254740993", "18446744073709551616", "0.1", "1E5", "1e+5", "1e", "1e+", "1_0", "1_", "1__0", "5.", ".5", "-", "-.5", "00012", "1kW/h%$", "1 kW",
+    "1_000_000.000_1kW", "-0kW", "NaNkW", "INFkW", "-INF", "+INF", "+1", "0x10",
+    "C(90,180)", "C(-90,-180)", "C(91,181)", "C(NaN,1)", "C(1)", "C(1,2,3)", "C(1e400,0)", "C(-0,-0)", "C( 1 , 2 )",
+    "@", "@a b", "^", "^a b", "``", "Bin()", "Bin(\"a\",\"b\")", "bin(\"a\")", "B(\"\")", "Marker", "NaN", "NA", "Na", "T", "TRUE", "true", "N", "null",
+];
+
 pub const UNITS: &[&str] = &[
     "kW", "%", "$", "°F", "°C", "m/s", "ft²", "kWh", "s", "min", "h", "V", "A", "Hz", "Pa", "m³/s", "Δ°C", "_custom",
 ];
@@ -343,7 +359,9 @@ impl<'r> Emitter<'r> {
 
     /// One scalar literal as a single lexer token.
     pub fn scalar(&mut self) {
-        let s = match self.rng.weighted(&[2, 3, 1, 1, 2, 8, 8, 4, 4, 3, 3, 3, 3, 2, 2]) {
+        let edge = if self.cfg.exotic { 2 } else { 0 };
+        let s = match self.rng.weighted(&[2, 3, 1, 1, 2, 8, 8, 4, 4, 3, 3, 3, 3, 2, 2, edge]) {
+            15 => self.rng.pick_str(EDGE_SCALARS).to_string(),
             0 => "N".to_string(),
             1 => "M".to_string(),
             2 => "R".to_string(),
